@@ -1,6 +1,8 @@
 package main
 
 func init() {
+	reg("C15", propCfg{Pkg: "props", Quick: tierCfg{12, 10}, Thorough: tierCfg{14, 150}})
+	reg("C09", propCfg{Pkg: "props", Quick: tierCfg{12, 10}, Thorough: tierCfg{14, 150}})
 	reg("C03", propCfg{Pkg: "props", Quick: tierCfg{12, 10}, Thorough: tierCfg{14, 150}})
 	reg("C02", propCfg{Pkg: "props", Quick: tierCfg{12, 10}, Thorough: tierCfg{14, 150}})
 	reg("C10", propCfg{Pkg: "props", Quick: tierCfg{8, 1000}, Thorough: tierCfg{14, 30000}})
